@@ -8,6 +8,7 @@ import struct
 import uuid as _uuid
 from fractions import Fraction
 
+from .. import history
 from ..core import Op, jkey
 from ..rat import rat
 
@@ -112,30 +113,43 @@ def term_desc(label, name, definition="d", type_of_term="property", extra=None, 
     return d
 
 
-def mk_term(d):
+_BY_ID = {}           # (kind, id(descriptor)) -> (descriptor, object): the pool descriptors are shared dict objects
+
+
+def _by_id(kind, d, make):
+    e = _BY_ID.get((kind, id(d)))
+    if e is not None and e[0] is d:
+        return e[1]
+    o = make(d)
+    _BY_ID[(kind, id(d))] = (d, o)
+    return o
+
+
+def _new_term(d):
     from soundevent import data
-    k = "T" + jkey(d)
-    if k not in _CACHE:
-        kw = {}
-        for f, v in d.items():
-            if f == "extra":
-                continue
-            fi = data.Term.model_fields[f]
-            kw[fi.alias or f] = v
-        for ek, ev in d["extra"]:
-            kw[ek] = ev
-        _CACHE[k] = data.Term(**kw)
-    return _CACHE[k]
+    kw = {}
+    for f, v in d.items():
+        if f == "extra":
+            continue
+        fi = data.Term.model_fields[f]
+        kw[fi.alias or f] = v
+    for ek, ev in d["extra"]:
+        kw[ek] = ev
+    return data.Term(**kw)
+
+
+def mk_term(d):
+    return _by_id("T", d, _new_term)
+
+
+def _new_tag(d):
+    # a fresh Term object per tag: equality must not lean on identity
+    from soundevent import data
+    return data.Tag(term=_new_term(d["term"]), value=d["value"])
 
 
 def mk_tag(d):
-    from soundevent import data
-    k = "G" + jkey(d)
-    if k not in _CACHE:
-        # a fresh Term object per tag: equality must not lean on identity
-        _CACHE.pop("T" + jkey(d["term"]), None)
-        _CACHE[k] = data.Tag(term=mk_term(d["term"]), value=d["value"])
-    return _CACHE[k]
+    return _by_id("G", d, _new_tag)
 
 
 def tag_to_desc(tag):
@@ -248,22 +262,100 @@ def pred_desc(tag, score):
 
 
 # ------------------------------------------------------------------ implementations
+def _salt(inp):
+    """a small number that depends on the input only (replays make the same choices)"""
+    n = 0
+    for k in ("vocab", "tags", "preds", "features"):
+        seq = inp.get(k, ())
+        n += 5 * len(seq)
+        for i, t in enumerate(seq):
+            t = t.get("tag", t)
+            tm = t["term"]
+            n += (i + 1) * (len(t["value"]) + len(tm["label"]) + len(tm["name"]) + 3 * len(tm["extra"]) + len(tm))
+    return n
+
+
+class _Seq:
+    """a user-defined collections.abc.Sequence (neither list nor tuple)"""
+
+    def __init__(self, items):
+        self._items = list(items)
+
+    def __len__(self):
+        return len(self._items)
+
+    def __getitem__(self, i):
+        return self._items[i]
+
+
+import collections.abc as _abc  # noqa: E402
+_abc.Sequence.register(_Seq)
+CONTAINERS = ["list", "tuple", "deque", "ndarray", "sequence"]
+
+
+def _container(items, k):
+    """the same items in another kind of Sequence: list, tuple, deque, numpy object array, user-defined Sequence"""
+    kind = CONTAINERS[k % len(CONTAINERS)]
+    if kind == "list":
+        return list(items)
+    if kind == "tuple":
+        return tuple(items)
+    if kind == "deque":
+        import collections
+        return collections.deque(items)
+    if kind == "ndarray":
+        import numpy as np
+        a = np.empty(len(items), dtype=object)
+        for i, x in enumerate(items):
+            a[i] = x
+        return a
+    return _Seq(items)
+
+
+PATH_CYCLE = [{"via": "json", "k": 1}, {"via": "validate_plain", "k": 2}, {"via": "model_copy_deep", "k": 3, "from": "json"},
+              {"via": "init_rev", "k": 4}, {"via": "pickle", "k": 5, "from": "validate_plain"}, {"via": "extras_update", "k": 1},
+              {"via": "explicit_none", "k": 0}, {"via": "deepcopy", "k": 2, "from": "init_rev"}, {"via": "validate", "k": 5}]
+
+
+def _tag_tree(d):
+    return _by_id("W", d, lambda d: walk(_new_tag(d)))
+
+
+def _tag_via(d, j):
+    """an equal tag that came to exist in another way (from a JSON document, a validated dict, a deep copy of an
+    object that was hashed, with the extras of its term in another order, ...); one object per (descriptor, way)"""
+    j %= len(PATH_CYCLE)
+    return _by_id("V%d" % j, d, lambda d: obtain(_tag_tree(d), PATH_CYCLE[j]))
+
+
+def _vocab_objs(inp):
+    s = _salt(inp)
+    if s % 3 == 1:
+        return [_tag_via(t, s + i) for i, t in enumerate(inp["vocab"])]
+    return [mk_tag(t) for t in inp["vocab"]]
+
+
+def _tag_objs(inp):
+    """the tags of a classification / multilabel input; with "xk" the extras of their terms in the xk-th order"""
+    if inp.get("xk"):
+        return [_fresh_via(_tag_tree(t), "init", inp["xk"]) for t in inp["tags"]]
+    return [mk_tag(t) for t in inp["tags"]]
+
+
 def _encoder(inp):
     from soundevent.evaluation import encoding
-    vocab = [mk_tag(t) for t in inp["vocab"]]
-    # the vocabulary is a Sequence: a list for one input, a tuple for the next
-    return encoding.create_tag_encoder(vocab if len(jkey(inp)) % 2 else tuple(vocab))
+    # the vocabulary is a Sequence: a list, a tuple, a deque, an object array, a user-defined Sequence
+    return encoding.create_tag_encoder(_container(_vocab_objs(inp), _salt(inp)))
 
 
 def _fresh_tag(d):
     """a tag object of its own (never the cached one), so that nothing can lean on identity"""
-    from soundevent import data
-    return data.Tag(term=_fresh_term(d["term"]), value=d["value"])
+    return _new_tag(d)
 
 
 def _impl_encoder(inp):
     from soundevent.evaluation import encoding
-    vocab = [mk_tag(t) for t in inp["vocab"]]
+    vocab = _vocab_objs(inp)
     snapshot = list(vocab)
     enc = encoding.create_tag_encoder(vocab)
     n = enc.num_classes
@@ -276,6 +368,22 @@ def _impl_encoder(inp):
     if not (first == again == temp == other):
         raise AssertionError("encode is not a function of the vocabulary and the tag: %r %r %r %r"
                              % (first, again, temp, other))
+    # follow-up 3: equal tags that came to exist in other ways (JSON, validated dict, copies, extras reordered), the
+    # vocabulary in another kind of Sequence, the function called with keywords
+    s = _salt(inp)
+    if s % 2 == 0 or inp.get("paths") == "all":
+        rounds = range(len(PATH_CYCLE)) if inp.get("paths") == "all" else [s]
+        for r in rounds:
+            via = [enc.encode(_tag_via(t, r + i)) for i, t in enumerate(inp["tags"])]
+            if via != first:
+                raise AssertionError("equal tags obtained through other construction paths are encoded differently: %r %r"
+                                     % (first, via))
+        enc2 = (encoding.create_tag_encoder(tags=_container(snapshot, s)) if _SIG_OK.get("create_tag_encoder")
+                else encoding.create_tag_encoder(_container(snapshot, s)))
+        cont = [enc2.encode(mk_tag(t)) for t in inp["tags"]]
+        if cont != first or enc2.num_classes != n:
+            raise AssertionError("a vocabulary given as a %s is encoded differently: %r %r"
+                                 % (CONTAINERS[s % len(CONTAINERS)], first, cont))
     if len(vocab) != len(snapshot) or any(a is not b for a, b in zip(vocab, snapshot)):
         raise AssertionError("the encoder changed the vocabulary list it was given")
     if any(type(e) is not int for e in first if e is not None):
@@ -294,14 +402,14 @@ def _full(d):
 
 def _impl_classification(inp):
     from soundevent.evaluation import encoding
-    r = _twice(encoding.classification_encoding, [mk_tag(t) for t in inp["tags"]], _encoder(inp))
+    r = _twice(encoding.classification_encoding, _tag_objs(inp), _encoder(inp), salt=_salt(inp), kw=ENC_SIG)
     return None if r is None else int(r)
 
 
 def _impl_multilabel(inp):
     from soundevent.evaluation import encoding
     import numpy as np
-    r = _twice(encoding.multilabel_encoding, [mk_tag(t) for t in inp["tags"]], _encoder(inp), same=_arr_same)
+    r = _twice(encoding.multilabel_encoding, _tag_objs(inp), _encoder(inp), same=_arr_same, salt=_salt(inp), kw=ENC_SIG)
     assert r.ndim == 1 and r.dtype.kind in "iub"
     return [int(x) for x in r]
 
@@ -315,7 +423,7 @@ def _impl_prediction(inp):
         s = float(Fraction(p["score"]))
         assert rat(f32(s)) == p["score32"], "stale score32 in input"
         preds.append(data.PredictedTag(tag=mk_tag(p["tag"]), score=s))
-    r = _twice(encoding.prediction_encoding, preds, _encoder(inp), same=_arr_same)
+    r = _twice(encoding.prediction_encoding, preds, _encoder(inp), same=_arr_same, salt=_salt(inp), kw=ENC_SIG)
     assert r.ndim == 1 and r.dtype == np.float32
     return [rat(float(x)) for x in r]
 
@@ -371,8 +479,7 @@ def _impl_tag_eq(inp):
     from soundevent.evaluation import encoding
     a, b = mk_tag(inp["a"]), mk_tag(inp["b"])
     # second, independently constructed copy: equality must not depend on identity
-    _CACHE.pop("G" + jkey(inp["b"]), None)
-    b2 = mk_tag(inp["b"])
+    b2 = _new_tag(inp["b"])
     r = (a == b)
     if (b == a) != r or (a == b2) != r:
         raise AssertionError("Tag.__eq__ is not symmetric / depends on identity")
@@ -399,7 +506,12 @@ def _holds_tag_eq(ctx, inp, io):
 
 # (re-validating a dump is not among them: a Term dumps under its field names but validates under its aliases,
 #  so `Tag.model_validate(tag.model_dump())` is a different object on the pinned tree — outside this property)
-HOWS = ["setattr", "model_copy_update", "model_copy", "copy", "deepcopy", "pickle"]
+HOWS = ["setattr", "model_copy_update", "model_copy", "copy", "deepcopy", "pickle",
+        # follow-up 3 (HISTORIES.md section 1): a deep copy with an update, a shallow copy.copy that is then assigned to, a
+        # detour (changed to the origin's content, hashed, changed back), list fields rewritten in place
+        "deep_copy_update", "copycopy_assign", "detour", "inplace_list"]
+DERIVED_HOWS = ("setattr", "model_copy_update", "deep_copy_update", "copycopy_assign", "detour", "inplace_list")
+MUTATING_HOWS = ("setattr", "copycopy_assign", "detour")
 
 
 def _derive(tree, origin, how):
@@ -410,14 +522,43 @@ def _derive(tree, origin, how):
     src = build(origin if origin is not None else tree)
     hash(src)                                            # e.g. it sat in a set before
     cls = type(src)
-    if how in ("setattr", "model_copy_update"):
+    if how in DERIVED_HOWS:
         target = build(tree)
         diff = {n: target.__dict__[n] for n in cls.model_fields if walk(target.__dict__[n]) != walk(src.__dict__[n])}
         if how == "setattr":
             for n, v in diff.items():
                 setattr(src, n, v)
             return src
-        return src.model_copy(update=diff)
+        if how == "model_copy_update":
+            return src.model_copy(update=diff)
+        if how == "deep_copy_update":
+            return src.model_copy(update=diff, deep=True)
+        if how == "copycopy_assign":
+            c = copy.copy(src)
+            for n, v in diff.items():
+                setattr(c, n, v)
+            hash(src)
+            return c
+        if how == "detour":
+            # `src` carries the origin's content; the object we want starts with the content of `tree`, takes the
+            # detour through the origin's content (and is hashed there), and comes back
+            obj = build(tree)
+            hash(obj)
+            back = {n: obj.__dict__[n] for n in diff}
+            for n in diff:
+                setattr(obj, n, src.__dict__[n])
+            hash(obj)
+            for n, v in back.items():
+                setattr(obj, n, v)
+            return obj
+        if how == "inplace_list":
+            # list fields are rewritten in place (`lst[:] = ...`), the other fields are assigned
+            for n, v in diff.items():
+                if isinstance(src.__dict__[n], list) and isinstance(v, list):
+                    src.__dict__[n][:] = v
+                else:
+                    setattr(src, n, v)
+            return src
     if how == "model_copy":
         return src.model_copy()
     if how == "copy":
@@ -467,7 +608,8 @@ def _impl_eq_hash(inp):
     r = (a == b)
     if (b == a) != r:
         raise AssertionError("__eq__ is not symmetric")
-    return {"eq": bool(r), "hash_eq": hash(a) == hash(b), **_membership(a, b), **_encoder_follows(a, b)}
+    return {"eq": bool(r), "hash_eq": hash(a) == hash(b), **_membership(a, b),
+            **(_encoder_follows(a, b) if type(a).__name__ == "Tag" else {})}
 
 
 def _membership(a, b):
@@ -733,8 +875,14 @@ def _g_setup(inp):
     return objs, enc
 
 
-def _twice(f, seq, *rest, same=lambda a, b: a == b):
-    """call f(seq, …) on a list, again on the same list, and on a tuple: the answer is a function of the arguments"""
+ENC_SIG = ["tags", "encoder"]        # = encodingSig of the model; compared with inspect.signature on every run
+_SIG_OK = {}                          # function name -> the code has the documented parameter names (set by _stage_signatures)
+
+
+def _twice(f, seq, *rest, same=lambda a, b: a == b, salt=None, kw=None):
+    """call f(seq, …) on a list, again on the same list, and on a tuple: the answer is a function of the arguments;
+    with `salt` also on another kind of Sequence, with `kw` (the documented parameter names) also by keyword, the
+    keywords in reverse order"""
     snapshot = list(seq)
     r1 = f(seq, *rest)
     if len(seq) != len(snapshot) or any(a is not b for a, b in zip(seq, snapshot)):
@@ -745,6 +893,14 @@ def _twice(f, seq, *rest, same=lambda a, b: a == b):
         raise AssertionError("a second call with the same arguments gives another result")
     if not same(r1, r3):
         raise AssertionError("a tuple of the same tags gives another result than the list")
+    if salt is not None and salt % 2:
+        r4 = f(_container(snapshot, 2 + salt % 3), *rest)
+        if not same(r1, r4):
+            raise AssertionError("a %s of the same tags gives another result than the list" % CONTAINERS[2 + salt % 3])
+    if kw is not None and salt is not None and salt % 3 == 0 and _SIG_OK.get(getattr(f, "__name__", ""), False):
+        r5 = f(**dict(reversed(list(zip(kw, (seq,) + rest)))))
+        if not same(r1, r5):
+            raise AssertionError("the call with keywords gives another result than the positional call")
     return r1
 
 
@@ -847,6 +1003,29 @@ def _opt(inp, k, f):
     return None if inp.get(k) is None else f(inp[k])
 
 
+CALL_STYLES = ["kw", "kw_rev", "pos", "mixed", "pos_prefix"]
+
+
+def _find_call(fn, seq, kw, style, sig_ok):
+    """find_tag / find_feature called as `style` says: keywords (in the documented or the reverse order), all
+    positional in the documented order (absent arguments as their documented default None), the first optional
+    argument positional and the rest by keyword, the shortest positional prefix that carries every given argument"""
+    order = ["label", "term", "default"]
+    if style in (None, "kw") or not sig_ok:
+        return fn(seq, **kw)
+    if style == "kw_rev":
+        return fn(**dict(reversed([(k, kw[k]) for k in order if k in kw])), **{FIND_FIRST[fn.__name__]: seq})
+    if style == "pos":
+        return fn(seq, *[kw.get(k) for k in order])
+    if style == "mixed":
+        return fn(seq, kw.get("label"), **{k: v for k, v in kw.items() if k != "label"})
+    n = max([i + 1 for i, k in enumerate(order) if k in kw] or [0])
+    return fn(seq, *[kw.get(k) for k in order[:n]])
+
+
+FIND_FIRST = {"find_tag": "tags", "find_feature": "features"}
+
+
 def _impl_find_tag(inp):
     from soundevent import data
     tags = [mk_tag(t) for t in inp["tags"]]
@@ -857,15 +1036,16 @@ def _impl_find_tag(inp):
         kw["term"] = _opt(inp, "term", _fresh_term)
     if "default" in inp:
         kw["default"] = _opt(inp, "default", mk_tag)
-    r = _twice(lambda seq: data.find_tag(seq, **kw), tags, same=lambda a, b: a is b)
+    ok = _SIG_OK.get("find_tag", False)
+    r = _twice(lambda seq: _find_call(data.find_tag, seq, kw, inp.get("call"), ok), tags, same=lambda a, b: a is b,
+               salt=_salt(inp))
     if r is not None and not any(r is t for t in tags) and r is not kw.get("default"):
         raise AssertionError("find_tag returned an object that is neither in the list nor the default")
     return {"val": None if r is None else _full(tag_to_desc(r))}
 
 
 def _fresh_term(d):
-    _CACHE.pop("T" + jkey(d), None)
-    return mk_term(d)
+    return _new_term(d)
 
 
 def _feat_desc(f):
@@ -888,7 +1068,11 @@ def _impl_find_feature(inp):
         kw["term"] = _opt(inp, "term", _fresh_term)
     if "default" in inp:
         kw["default"] = _opt(inp, "default", _mk_feature)
-    r = _twice(lambda seq: data.find_feature(seq, **kw), feats, same=lambda a, b: a is b)
+    ok = _SIG_OK.get("find_feature", False)
+    r = _twice(lambda seq: _find_call(data.find_feature, seq, kw, inp.get("call"), ok), feats, same=lambda a, b: a is b,
+               salt=_salt(inp))
+    if r is not None and not any(r is f for f in feats) and r is not kw.get("default"):
+        raise AssertionError("find_feature returned an object that is neither in the list nor the default")
     return {"val": None if r is None else _feat_desc(r)}
 
 
@@ -1050,7 +1234,8 @@ OPS = {
                   nontrivial=lambda i, o: isinstance(o, dict) and "eq" in o),
 }
 for _n in ("classification", "multilabel", "prediction"):
-    OPS[_n].to_model = lambda inp: {k: v for k, v in inp.items() if k != "monitor"}
+    OPS[_n].to_model = lambda inp: {k: v for k, v in inp.items() if k not in ("monitor", "xk", "num")}
+OPS["encoder"].to_model = lambda inp: {k: v for k, v in inp.items() if k != "paths"}
 
 # review additions
 _G = lambda inp: {k: v for k, v in inp.items() if k not in ("np", "proto")}  # noqa: E731
@@ -1068,8 +1253,8 @@ OPS.update({
     "prediction_oor": Op("prediction_oor", _impl_prediction_g, to_model=_G, compare=_cmp_oor, determined=False,
                          model_op="prediction_g", nontrivial=lambda i, o: True),
     "decode_i": Op("decode_i", _impl_decode_i, determined=False, nontrivial=lambda i, o: isinstance(o, list)),
-    "find_tag": Op("find_tag", _impl_find_tag),
-    "find_feature": Op("find_feature", _impl_find_feature),
+    "find_tag": Op("find_tag", _impl_find_tag, to_model=lambda i: {k: v for k, v in i.items() if k != "call"}),
+    "find_feature": Op("find_feature", _impl_find_feature, to_model=lambda i: {k: v for k, v in i.items() if k != "call"}),
     "tag_init": Op("tag_init", _impl_tag_init, to_model=lambda i: {k: v for k, v in i.items() if k != "how"}),
     "feature_init": Op("feature_init", _impl_feature_init,
                        to_model=lambda i: {k: v for k, v in i.items() if k != "how"}),
@@ -1077,6 +1262,310 @@ OPS.update({
                      holds=_holds_eq_hash, determined=False,
                      nontrivial=lambda i, o: isinstance(o, dict) and "eq" in o),
 })
+
+
+
+# ------------------------------------------------------------------ follow-up 3: histories (HISTORIES.md section 1)
+# Consecutive calls in one process on shared identities, through harness/history.py: every step is judged by the
+# base operation's model on the content the objects carry at that step (the model is pure; what a cache inside the
+# library may and may not do is `C19_history_cache_sound` / `_stale`, `C19_history_hash_now` / `_stale`).
+H_REUSE = ("assign", "copy_update", "deep_copy_update", "copycopy_assign", "same_list")
+
+
+def _retag(old, d, how):
+    """a Tag object that was used (and hashed) before, made to carry the descriptor d"""
+    import copy
+    if old is None or how == "same_list":
+        t = _fresh_tag(d)
+        hash(t)
+        return t
+    term = _fresh_term(d["term"])
+    if how == "assign":
+        old.term = term
+        old.value = d["value"]
+        t = old
+    elif how == "copy_update":
+        t = old.model_copy(update={"term": term, "value": d["value"]})
+    elif how == "deep_copy_update":
+        t = old.model_copy(update={"term": term, "value": d["value"]}, deep=True)
+    else:                                        # copycopy_assign
+        t = copy.copy(old)
+        t.value = d["value"]
+        t.term = term
+    hash(t)
+    return t
+
+
+def _relist(lst, objs):
+    """the same list object with new content (a caller that keeps one list and refills it)"""
+    lst[:] = objs
+    return lst
+
+
+def _hashed_tags(ds):
+    out = [_fresh_tag(d) for d in ds]
+    len(set(out))                                # the caller de-duplicated them once: every tag was hashed
+    return out
+
+
+def _eh_build(inp):
+    return {"vocab": _hashed_tags(inp["vocab"]), "probes": _hashed_tags(inp["tags"])}
+
+
+def _eh_call(args):
+    from soundevent.evaluation import encoding
+    return {"enc": encoding.create_tag_encoder(args["vocab"])}
+
+
+def _eh_canon(inp, args, res):
+    enc = res["enc"]
+    if "decode" not in res:
+        # first reading, with the live objects of the step; decode hands back the caller's own vocabulary objects
+        # (which later steps may change), so it is read once
+        res["decode"] = [_full(tag_to_desc(enc.decode(i))) for i in range(len(inp["vocab"]))]
+        res["live"] = [enc.encode(p) for p in args["probes"]]
+    out = {"num_classes": enc.num_classes, "encode": [enc.encode(_fresh_tag(d)) for d in inp["tags"]],
+           "decode": res["decode"]}
+    if res["live"] != out["encode"]:
+        out["live_encode"] = res["live"]         # never equal to the model's reply: the step fails with both shown
+    return out
+
+
+def _eh_snapshot(args):
+    return [[tag_to_desc(t) for t in args["vocab"]], [id(t) for t in args["vocab"]],
+            [tag_to_desc(t) for t in args["probes"]]]
+
+
+def _eh_modify(args, inp, how):
+    old_v, old_p = args["vocab"], args["probes"]
+    vocab = [_retag(old_v[i] if i < len(old_v) else None, d, how) for i, d in enumerate(inp["vocab"])]
+    probes = [_retag(old_p[i] if i < len(old_p) else None, d, how) for i, d in enumerate(inp["tags"])]
+    if how in ("assign", "same_list"):
+        vocab, probes = _relist(old_v, vocab), _relist(old_p, probes)
+    return {"vocab": vocab, "probes": probes}
+
+
+def _eh_variants(x, rng):
+    """neighbours of an encoder case: the vocabulary reordered / cut / with one tag replaced by a near twin"""
+    out = []
+    v = x["vocab"]
+    if len(v) > 1:
+        out.append({**x, "vocab": v[::-1]})
+        out.append({**x, "vocab": v[1:]})
+        out.append({**x, "vocab": v[1:] + v[:1]})
+    absent = [t for t in POOL if t not in v]
+    if absent:
+        out.append({**x, "vocab": v + [rng.choice(absent)]})
+        if v:
+            i = rng.randrange(len(v))
+            out.append({**x, "vocab": v[:i] + [rng.choice(absent)] + v[i + 1:]})
+    out.append({**x, "tags": x["tags"][::-1]})
+    return out
+
+
+OPS["encoder_history"] = history.history_op(
+    "encoder_history", Op("encoder", None), _eh_build, _eh_call, _eh_canon, snapshot=_eh_snapshot, modify=_eh_modify)
+
+
+def _items_of(inp, old=None, how=None):
+    """live Tag / PredictedTag objects for a classification / multilabel / prediction input"""
+    from soundevent import data
+    old = old or []
+    if "preds" in inp:
+        out = []
+        for i, p in enumerate(inp["preds"]):
+            s = float(Fraction(p["score"]))
+            o = old[i] if i < len(old) else None
+            if o is None or how in (None, "same_list"):
+                out.append(data.PredictedTag(tag=_retag(None, p["tag"], None), score=s))
+            elif how == "assign":
+                o.tag = _retag(o.tag, p["tag"], how)
+                o.score = s
+                out.append(o)
+            elif how == "copycopy_assign":
+                import copy
+                c = copy.copy(o)
+                c.score = s
+                c.tag = _retag(o.tag, p["tag"], how)
+                out.append(c)
+            else:
+                out.append(o.model_copy(update={"tag": _retag(o.tag, p["tag"], how), "score": s},
+                                        deep=(how == "deep_copy_update")))
+        return out
+    return [_retag(old[i] if i < len(old) else None, d, how) for i, d in enumerate(inp["tags"])]
+
+
+def _item_desc(x):
+    if hasattr(x, "score"):
+        return [tag_to_desc(x.tag), rat(x.score)]
+    return tag_to_desc(x)
+
+
+def _xh_build(inp):
+    from soundevent.evaluation import encoding
+    vocab = _hashed_tags(inp["vocab"])
+    return {"vocab": vocab, "vocab_desc": jkey(inp["vocab"]), "enc": encoding.create_tag_encoder(vocab),
+            "items": _items_of(inp)}
+
+
+def _xh_snapshot(args):
+    return [[_item_desc(x) for x in args["items"]], [id(x) for x in args["items"]],
+            [tag_to_desc(t) for t in args["vocab"]], args["enc"].num_classes]
+
+
+def _xh_modify(args, inp, how):
+    from soundevent.evaluation import encoding
+    items = _items_of(inp, args["items"], how)
+    if how in ("assign", "same_list"):
+        items = _relist(args["items"], items)
+    if args["vocab_desc"] == jkey(inp["vocab"]):
+        return {**args, "items": items}              # the very same encoder object is used again
+    vocab = _hashed_tags(inp["vocab"])
+    return {"vocab": vocab, "vocab_desc": jkey(inp["vocab"]), "enc": encoding.create_tag_encoder(vocab), "items": items}
+
+
+def _xh_poison(res):
+    """the caller writes into the array it got back"""
+    import numpy as np
+    if not isinstance(res, np.ndarray) or res.size == 0:
+        return False
+    res[...] = 7 if res.dtype.kind in "iu" else 0.75
+    return True
+
+
+def _xh_variants(x, rng):
+    out = []
+    for v in _eh_variants({"vocab": x["vocab"], "tags": []}, rng):
+        out.append({**x, "vocab": v["vocab"]})
+    key = "preds" if "preds" in x else "tags"
+    seq = x[key]
+    if seq:
+        out.append({**x, key: seq[::-1]})
+        out.append({**x, key: seq[1:]})
+        i = rng.randrange(len(seq))
+        twin = rng.choice(POOL)
+        out.append({**x, key: seq[:i] + [pred_desc(twin, rng.choice(SCORES)) if key == "preds" else twin] + seq[i + 1:]})
+    out.append({**x, key: seq + ([pred_desc(rng.choice(POOL), rng.choice(SCORES))] if key == "preds" else [rng.choice(POOL)])})
+    return out
+
+
+def _xh_op(name, fn_name, canon):
+    def call(args):
+        from soundevent.evaluation import encoding
+        return getattr(encoding, fn_name)(args["items"], args["enc"])
+    return history.history_op(name + "_history", OPS[name], _xh_build, call, lambda inp, args, res: canon(res),
+                              snapshot=_xh_snapshot, modify=_xh_modify, poison=_xh_poison)
+
+
+OPS["classification_history"] = _xh_op("classification", "classification_encoding", lambda r: None if r is None else int(r))
+OPS["multilabel_history"] = _xh_op("multilabel", "multilabel_encoding", lambda r: [int(x) for x in r])
+OPS["prediction_history"] = _xh_op("prediction", "prediction_encoding", lambda r: [rat(float(x)) for x in r])
+
+
+def _fh_kw(inp, mk_default):
+    kw = {}
+    if "label" in inp:
+        kw["label"] = inp["label"]
+    if "term" in inp:
+        kw["term"] = _opt(inp, "term", _fresh_term)
+    if "default" in inp:
+        kw["default"] = _opt(inp, "default", mk_default)
+    return kw
+
+
+def _fh_op(name, key, mk, fn_name, desc):
+    def build(inp):
+        return {"seq": [mk(d) for d in inp[key]], "kw": _fh_kw(inp, mk)}
+
+    def call(args):
+        from soundevent import data
+        return getattr(data, fn_name)(args["seq"], **args["kw"])
+
+    def canon(inp, args, res):
+        return {"val": None if res is None else desc(res)}
+
+    def snapshot(args):
+        return [[desc(x) for x in args["seq"]], [id(x) for x in args["seq"]], sorted(args["kw"])]
+
+    def modify(args, inp, how):
+        # the caller keeps one list and refills it (with new objects: a returned element is the caller's own object,
+        # and earlier results are read again at the end)
+        return {"seq": _relist(args["seq"], [mk(d) for d in inp[key]]), "kw": _fh_kw(inp, mk)}
+
+    return history.history_op(name + "_history", OPS[name], build, call, canon, snapshot=snapshot, modify=modify)
+
+
+OPS["find_tag_history"] = _fh_op("find_tag", "tags", _fresh_tag, "find_tag",
+                                 lambda t: _full(tag_to_desc(t)))
+OPS["find_feature_history"] = _fh_op("find_feature", "features", _mk_feature, "find_feature", _feat_desc)
+
+
+def _fh_variants(key, pool):
+    def variants(x, rng):
+        out = []
+        for k in ("label", "term", "default"):
+            if k in x:
+                out.append({a: b for a, b in x.items() if a != k})
+        if "default" not in x:
+            out.append({**x, "default": rng.choice(pool)})
+        if "label" not in x:
+            out.append({**x, "label": rng.choice(["species", "Species", "colour"])})
+        if "term" not in x:
+            out.append({**x, "term": rng.choice([T0, T1, T2, T4])})
+        seq = x[key]
+        if seq:
+            out.append({**x, key: seq[::-1]})
+            out.append({**x, key: seq[1:]})
+        out.append({**x, key: seq + [rng.choice(pool)]})
+        return out
+    return variants
+
+
+_H_BASE = {"encoder_history": Op("encoder", None), "classification_history": OPS["classification"],
+           "multilabel_history": OPS["multilabel"], "prediction_history": OPS["prediction"],
+           "find_tag_history": OPS["find_tag"], "find_feature_history": OPS["find_feature"]}
+
+
+def _stage_histories(ctx):
+    rng = ctx.rng
+
+    def run(opname, base, n, variants, hows, poison=False):
+        hs = history.sequences(rng, base, n, variants=variants, reuse_hows=hows, poison=poison)
+        for h in hs:
+            for st in h["seq"]:
+                ctx.tally(f"history {opname}:" + (st.get("reuse") or "fresh") + ("+poison" if st.get("poison") else ""))
+        history.prefetch(ctx, _H_BASE[opname], hs)
+        ctx.run_cases(OPS[opname], hs)
+        ctx.__dict__.pop("_history_model_cache", None)
+
+    probes = POOL[:8]
+    base = [{"vocab": _random_vocab(rng, POOL, 5), "tags": probes} for _ in range(ctx.budget(60, 600))]
+    base += [{"vocab": [CORE[0], CORE[3]], "tags": probes}, {"vocab": [CORE[1]], "tags": probes}]
+    run("encoder_history", base, ctx.budget(90, 900), _eh_variants, H_REUSE)
+    tcases = [_random_case(rng, "tags") for _ in range(ctx.budget(60, 600))]
+    pcases = [_random_case(rng, "preds") for _ in range(ctx.budget(60, 600))]
+    run("classification_history", tcases, ctx.budget(70, 700), _xh_variants, H_REUSE)
+    run("multilabel_history", tcases, ctx.budget(90, 900), _xh_variants, H_REUSE, poison=True)
+    run("prediction_history", pcases, ctx.budget(90, 900), _xh_variants, H_REUSE, poison=True)
+    fcases = []
+    for _ in range(ctx.budget(50, 500)):
+        c = {"tags": [rng.choice(POOL[:8]) for _ in range(rng.choice([0, 1, 2, 3, 5]))]}
+        for k, vals in (("term", [T0, T1, T2, T4, None]), ("label", ["species", "Species", "colour", "zz", None]),
+                        ("default", POOL[:6] + [None])):
+            if rng.random() < 0.5:
+                c[k] = rng.choice(vals)
+        fcases.append(c)
+    run("find_tag_history", fcases, ctx.budget(70, 700), _fh_variants("tags", POOL[:8]), ("same_list",))
+    ffeat = [{"term": t, "value": rat(v)} for t in (T0, T1, T2, T5) for v in (0.0, 1.0)]
+    gcases = []
+    for _ in range(ctx.budget(40, 400)):
+        c = {"features": [rng.choice(ffeat) for _ in range(rng.choice([0, 1, 2, 3]))]}
+        for k, vals in (("term", [T0, T1, T2, None]), ("label", ["species", "Species", "colour", None]),
+                        ("default", ffeat + [None])):
+            if rng.random() < 0.5:
+                c[k] = rng.choice(vals)
+        gcases.append(c)
+    run("find_feature_history", gcases, ctx.budget(50, 500), _fh_variants("features", ffeat), ("same_list",))
 
 
 # ------------------------------------------------------------------ generators
@@ -1332,9 +1821,9 @@ def _eq_hash_cases(ctx):
         base = pool[0][1]
         for label, tree in pool:
             for how in HOWS:
-                if how == "setattr" and frozen:
+                if how in MUTATING_HOWS + ("inplace_list",) and frozen:
                     continue
-                derived = how in ("setattr", "model_copy_update")
+                derived = how in DERIVED_HOWS
                 if derived and (label in ("base", "copy") or label.endswith("'") or label.startswith(("+", "<"))):
                     continue
                 if not derived and label.endswith("'"):
@@ -1608,6 +2097,68 @@ def _hand_written_hash(c):
     return f is not None and getattr(f, "__module__", "").startswith("soundevent")
 
 
+
+# ------------------------------------------------------------------ follow-up 3: documented signatures (tie 1)
+def _stage_signatures(ctx):
+    """the parameter names and order of the public functions, re-extracted with inspect.signature, against the
+    tables of the model (findTagSig, findFeatureSig, encodingSig); the call styles the check uses, bound by the
+    model's `bindCall` (C19_call_binding, C19_find_call_styles)"""
+    import inspect
+    from soundevent import data
+    from soundevent.evaluation import encoding
+    table = [("find_tag", data, "find_tag", "findTagSig"), ("find_feature", data, "find_feature", "findFeatureSig"),
+             ("classification_encoding", encoding, "encoding", "encodingSig"),
+             ("multilabel_encoding", encoding, "encoding", "encodingSig"),
+             ("prediction_encoding", encoding, "encoding", "encodingSig")]
+    for fname, mod, sig, lean in table:
+        fn = getattr(mod, fname, None)
+        try:
+            ps = list(inspect.signature(fn).parameters.values())
+        except Exception as e:  # noqa: BLE001
+            ctx.pre_failed.append("signature_" + fname)
+            ctx.fail("obligation", "signature_" + fname, detail=f"no signature: {e!r}")
+            continue
+        # keyword-only parameters added behind the documented ones do not change how the documented calls bind
+        names = [q.name for q in ps if q.kind in (q.POSITIONAL_ONLY, q.POSITIONAL_OR_KEYWORD)]
+        posonly = [q.name for q in ps if q.kind == q.POSITIONAL_ONLY]
+        defaults = [q.name for q in ps[1:] if q.kind == q.POSITIONAL_OR_KEYWORD and q.default is not None
+                    and q.default is not q.empty]
+        r = ctx.model("bind_call", {"sig": sig, "params": names, "npos": 1, "kw": []})
+        _SIG_OK[fname] = bool(r["documented"]) and not posonly and not defaults
+        ctx.obligation("signature_" + fname,
+                       f"example : SE.Encoding.{lean} = {_lean_strs(names)} := by decide\n"
+                       f"example : {_lean_strs(posonly + defaults)} = ([] : List String) := by decide",
+                       {"function": fname, "parameters": names, "positional_only": posonly,
+                        "defaults_other_than_None": defaults})
+    fn = getattr(encoding, "create_tag_encoder", None)
+    try:
+        _SIG_OK["create_tag_encoder"] = [q.name for q in inspect.signature(fn).parameters.values()
+                                         if q.default is q.empty] == ["tags"]
+    except Exception:  # noqa: BLE001
+        _SIG_OK["create_tag_encoder"] = False
+    # the call styles of _find_call, bound by the model: every style binds the given arguments to their own names
+    for sig, params in (("find_tag", ["tags", "label", "term", "default"]),):
+        for given in itertools.chain.from_iterable(itertools.combinations(params[1:], r) for r in range(4)):
+            for style in CALL_STYLES:
+                order = params[1:]
+                if style == "kw":
+                    npos, kws = 1, [k for k in order if k in given]
+                elif style == "kw_rev":
+                    npos, kws = 0, [k for k in reversed(order) if k in given] + [params[0]]
+                elif style == "pos":
+                    npos, kws = 4, []
+                elif style == "mixed":
+                    npos, kws = 2, [k for k in order if k in given and k != "label"]
+                else:
+                    npos, kws = 1 + max([i + 1 for i, k in enumerate(order) if k in given] or [0]), []
+                r = ctx.model("bind_call", {"sig": sig, "params": params, "npos": npos, "kw": kws})
+                bound = dict((k, i) for k, i in (r["binding"] or []))
+                want = {p: (i if i < npos else npos + kws.index(p)) for i, p in enumerate(params) if i < npos or p in kws}
+                ctx.contract("call-style-binding", r["binding"] is not None and bound == want and
+                             all(g in bound for g in given) and "tags" in bound,
+                             {"style": style, "given": list(given)}, r["binding"])
+
+
 # ------------------------------------------------------------------ run
 def _encoder_cases(pool, maxlen, probe):
     for v in _vocabs(pool, maxlen):
@@ -1626,6 +2177,7 @@ def run(ctx):
     ctx.stage("corpus", ctx.run_corpus, OPS)
     ctx.stage("tables", _tables, ctx)
     ctx.stage("hash-trace", _stage_hash_trace, ctx)
+    ctx.stage("signatures", _stage_signatures, ctx)
     ctx.stage("discharge", ctx.discharge, ["SoundeventModel.Encoding", "Proofs.C19"])
     ctx.stage("encoder", _stage_encoder, ctx)
     ctx.stage("encodings", _stage_encodings, ctx)
@@ -1633,6 +2185,7 @@ def run(ctx):
     ctx.stage("tag-equality", _stage_tag_eq, ctx)
     ctx.stage("eq-hash", _stage_eq_hash, ctx)
     ctx.stage("construction-paths", _stage_paths, ctx)
+    ctx.stage("histories", _stage_histories, ctx)
     ctx.stage("generic-encoders", _stage_generic, ctx)
     ctx.stage("find", _stage_find, ctx)
     ctx.stage("init", _stage_init, ctx)
